@@ -2,7 +2,7 @@
 
 //verif:dir p2p/net/connmgr
 //verif:shard VerifC14aTrim 12
-//verif:shard VerifC14cEmergency 4
+//verif:shard VerifC14cEmergency 14
 //verif:shard VerifC14dDecayer 3
 //verif:obligation C14.d decaying tags through the real decayer goroutine (process loop) driven by benbjohnson's mock clock: on every history of 3 (thorough 4) operations from {Bump(delta 1..30), one tick, Remove} with a fixed-step decay function of symbolic step 1..20 and a static tag of symbolic value: after every operation the peer's cached value equals the sum of its static and decaying tag values, and a decaying value that reaches zero or below - also when the decay function overshoots below zero - is removed together with exactly its own contribution
 //verif:obligation C14.a getConnsToClose from an arbitrary manager state: up to 3 (thorough 4) tracked peers with symbolic tag value, temporary flag, first-seen instant, protection, 0..2 connections each (thorough: with symbolic direction and stream count), symbolic watermarks, grace period and clock: no connection of a protected peer or of a peer inside its grace period is selected; nothing is selected when the connection count is at or below the low watermark or the manager is disabled; a peer's connections are selected all or none; otherwise at most low-watermark connections remain among the eligible peers; no peer is closed while a lower-valued eligible (non-temporary, connected) peer is kept
@@ -210,6 +210,13 @@ func VerifC14cEmergency() {
 	if anyProtected {
 		vCover("protected-closed")
 		vAssert(allUnprotected, "a forced trim closes protected peers only after all unprotected ones")
+	}
+	if target <= 0 {
+		vCover("at-or-below-the-low-watermark")
+		vAssert(len(sel) == 0, "a forced trim does nothing when the connection count is at or below the low watermark")
+	} else {
+		// peers have at most 2 connections here: selection stops with the peer that reaches the target
+		vAssert(len(sel) <= target+1, "a forced trim stops closing as soon as the low watermark is reached")
 	}
 }
 
